@@ -82,8 +82,10 @@ def LookupByDomain : List String := ["HTTPDomainIndexKey", "storage.Get", "GetMa
 def Registry_IsBaseDomainAllowed : List String := ["mu.RLock", "defer mu.RUnlock", "@r.baseDomains", "@r.baseDomains"]
 def Registry_Lookup : List String := ["mu.RLock", "defer mu.RUnlock", "@r.mappings"]
 def Registry_LookupByHost : List String := ["Lookup"]
+def Registry_Rebuild : List String := ["mu.Lock", "defer mu.Unlock", "@r.mappings", "@r.mappings", "@r.mappings"]
 def Registry_Register : List String := ["FullDomain", "IsBaseDomainAllowed", "mu.Lock", "defer mu.Unlock", "@r.mappings", "@r.mappings"]
 def Registry_Unregister : List String := ["mu.Lock", "defer mu.Unlock", "@r.mappings", "@r.mappings"]
+def Registry_UnregisterByMappingID : List String := ["mu.Lock", "defer mu.Unlock", "@r.mappings", "@r.mappings"]
 def UpdateMapping : List String := ["GetMapping", "Validate", "HTTPDomainMappingKey", "storage.Set"]
 def generateMappingID : List String := ["Incr"]
 def handleLargeRequest : List String := ["lookupMapping", "@r.Host", "@mapping.TargetClientID", "@r.Host", "RequestTunnelForHTTP", "@mapping.TargetClientID"]
